@@ -88,6 +88,9 @@ WellFormed(p, api) ==
     /\ \A i \in 1..(NSp(p)-1) : RLe(p.sp[i], p.sp[i+1])
     /\ IF IsLb(api)
        THEN /\ \A i \in 1..NSp(p) : Mu(p, i) # ROne                         \* KG - K regular on the active part
+            /\ \A i \in 1..NSp(p) : Mu(p, i) # RNeg(ROne)     \* reference load not exactly critical: the Cayley operator
+                                                             \* then has the Ritz value 0 and ARPACK's purification
+                                                             \* divides by it (NaN mode observed)
             /\ Cardinality({ i \in 1..NSp(p) : RIsZero(p.sp[i]) }) >= Cardinality(Act(p) \ Both(p))
        ELSE /\ Act(p) = Both(p)
             /\ \A i \in 1..NSp(p) : RSign(p.sp[i]) > 0                      \* K, M positive definite on the active part
